@@ -677,13 +677,28 @@ func (e *scriptEnv) execStmt(st string) string {
 }
 
 func runScript(v int, desc, stmts string) string {
+	// D: after the leading view statements the base Number is DROPPED (the harness forgets it) and
+	// the garbage collector runs; the rest of the script uses derived views only — what they
+	// deliver must not depend on the Number they came from still being referenced
+	dropBase := strings.HasPrefix(desc, "D")
+	desc = strings.TrimPrefix(desc, "D")
 	env, err := newScriptNumber(v, desc)
 	if err != "" {
 		return err
 	}
 	var res []string
 	if stmts != "-" {
+		leading := true
 		for _, st := range strings.Split(stmts, ";") {
+			isView := strings.HasPrefix(st, "ws:") || strings.HasPrefix(st, "we:") || strings.HasPrefix(st, "wsig:") || strings.HasPrefix(st, "fws:")
+			if dropBase && leading && !isView {
+				leading = false
+				env.handles[0] = handle{v: env.v}
+				for i := 0; i < 3; i++ {
+					runtime.GC()
+					time.Sleep(time.Millisecond)
+				}
+			}
 			r := guardedInline(func() string { return env.execStmt(st) })
 			res = append(res, r)
 			if strings.HasPrefix(r, "panic:") && !strings.HasPrefix(st, "wsig") && !strings.HasPrefix(st, "itat") {
